@@ -228,6 +228,13 @@ def bkStep (st : St) (w : List String) : Option (St × String) :=
       match Impl.deleteRel (st.srels.getD []) i with
       | .ok rs => ({ st with srels := some rs }, dumpRels rs)
       | .panic => (st, "PANIC")
+  | ["bk.copyrels"] =>
+    -- CopySheet(Sheet1 → CopyT): relationships the copy receives
+    if !(b.sheets.any fun s => Impl.eqFold s.name (sl "Sheet1")) || !(b.sheets.any fun s => Impl.eqFold s.name (sl "CopyT")) then
+      some (st, "skip")
+    else match st.srels with
+      | none => some (st, "none")
+      | some l => some (st, dumpRels (Impl.copyRels l))
   | "bk.trim" :: rows => (parseTrimRows rows).map fun rows => (st, dumpRows (Impl.trimRow rows))
   | _ => none
 
